@@ -553,3 +553,226 @@ mod verif_arith_kani {
         kani::cover!(true);
     }
 }
+
+// ---- fourth module: side-effect analysis and if-expression folding, MODULAR: the recursive callees
+// ---- `evaluate` / `has_side_effects` are replaced by an ABSTRACT relation on tagged sub-expressions ----
+#[cfg(kani)]
+mod verif_se_kani {
+    use super::*;
+
+    // abstract answers of the callees on the tagged sub-expressions: one symbolic-but-fixed value each
+    // ABS_VAL: 0 Unknown, 1 true, 2 false, 3 nil, 4 a number, 5 a table constructor, 6 a function
+    static mut ABS_VAL: [u8; 8] = [0; 8];
+    static mut ABS_SE: [bool; 8] = [false; 8];
+
+    fn tagged(i: u8) -> Expression {
+        Expression::Number(NumberExpression::Decimal(DecimalNumber::new(i as f64)))
+    }
+    fn tag_of(e: &Expression) -> Option<usize> {
+        match e {
+            Expression::Number(NumberExpression::Decimal(d)) => {
+                let f = d.get_raw_float();
+                if f == 0.0 { Some(0) } else if f == 1.0 { Some(1) } else if f == 2.0 { Some(2) } else if f == 3.0 { Some(3) }
+                else if f == 4.0 { Some(4) } else if f == 5.0 { Some(5) } else if f == 6.0 { Some(6) } else { Some(7) }
+            }
+            _ => None,
+        }
+    }
+    fn value_of(kind: u8, tag: usize) -> LuaValue {
+        match kind {
+            1 => LuaValue::True,
+            2 => LuaValue::False,
+            3 => LuaValue::Nil,
+            4 => LuaValue::Number(100.0 + tag as f64),
+            5 => LuaValue::Table,
+            6 => LuaValue::Function,
+            _ => LuaValue::Unknown,
+        }
+    }
+    fn val(i: usize) -> u8 {
+        unsafe { ABS_VAL[i] }
+    }
+    fn se(i: usize) -> bool {
+        unsafe { ABS_SE[i] }
+    }
+    /// what is KNOWN about the truthiness of sub-expression i (O-val: only nil and false are falsy)
+    fn truth(kind: u8) -> Option<bool> {
+        match kind {
+            0 => None,
+            2 | 3 => Some(false),
+            _ => Some(true),
+        }
+    }
+    /// stand-in for Evaluator::evaluate on the sub-expressions: any value, fixed per sub-expression
+    fn abs_evaluate(_this: &Evaluator, e: &Expression) -> LuaValue {
+        match tag_of(e) {
+            Some(i) => value_of(val(i), i),
+            None => LuaValue::Unknown,
+        }
+    }
+    /// stand-in for Evaluator::has_side_effects on the sub-expressions: any answer, fixed per sub-expression
+    fn abs_has_side_effects(_this: &Evaluator, e: &Expression) -> bool {
+        match tag_of(e) {
+            Some(i) => se(i),
+            None => true,
+        }
+    }
+    fn kind() -> u8 {
+        let k: u8 = kani::any();
+        kani::assume(k <= 6);
+        k
+    }
+    fn setup() {
+        // element by element: kani::any::<[T; 8]>() is a loop that would force a large unwinding bound
+        let v: [u8; 8] = [kind(), kind(), kind(), kind(), kind(), kind(), kind(), kind()];
+        let s: [bool; 8] = [kani::any(), kani::any(), kani::any(), kani::any(), kani::any(), kani::any(), kani::any(), kani::any()];
+        unsafe {
+            ABS_VAL = v;
+            ABS_SE = s;
+        }
+    }
+    // tags: 0 condition, 1 result, 2 else result, (3, 4) first elseif condition / result, (5, 6) second
+    fn if_expression(branches: usize) -> IfExpression {
+        let mut e = IfExpression::new(tagged(0), tagged(1), tagged(2));
+        if branches >= 1 {
+            e = e.with_branch(tagged(3), tagged(4));
+        }
+        if branches >= 2 {
+            e = e.with_branch(tagged(5), tagged(6));
+        }
+        e
+    }
+    /// O-val: some sub-expression that MAY be evaluated at run time has a side effect
+    fn if_must_report(branches: usize) -> bool {
+        if se(0) {
+            return true;
+        }
+        let t0 = truth(val(0));
+        if t0 != Some(false) && se(1) {
+            return true;
+        }
+        if t0 == Some(true) {
+            return false;
+        }
+        let mut i = 0;
+        while i < branches {
+            let c = 3 + 2 * i;
+            if se(c) {
+                return true;
+            }
+            let t = truth(val(c));
+            if t != Some(false) && se(c + 1) {
+                return true;
+            }
+            if t == Some(true) {
+                return false;
+            }
+            i += 1;
+        }
+        se(2)
+    }
+
+    fn check_if_side_effects(branches: usize) {
+        setup();
+        let e = if_expression(branches);
+        let r = Evaluator::default().if_expression_has_side_effects(&e);
+        assert!(!if_must_report(branches) || r, "O-val: an if-expression in which a sub-expression that may run has a side effect is reported");
+        kani::cover!(r);
+        kani::cover!(!r);
+        core::mem::forget(e);
+    }
+
+    //@harness props=C08,C12 kind=bounded fns=Evaluator::if_expression_has_side_effects bound="if-expressions with 0, 1 and 2 elseif branches; the callees evaluate / has_side_effects are an ABSTRACT relation: any value (unknown, true, false, nil, number, table, function) and any side-effect answer per sub-expression" budget=400
+    //@ desc="if_expression_has_side_effects answers true whenever a sub-expression that MAY be evaluated (condition; result unless the condition is known falsy; each elseif condition reached; its result unless known falsy; the else result if reached) has a side effect -- for every behaviour of the callees on the sub-expressions"
+    #[kani::proof]
+    #[kani::unwind(10)]
+    #[kani::stub(Evaluator::evaluate, abs_evaluate)]
+    #[kani::stub(Evaluator::has_side_effects, abs_has_side_effects)]
+    fn vk_se_if_expression() {
+        let n: u8 = kani::any();
+        kani::assume(n <= 2);
+        match n {
+            0 => check_if_side_effects(0),
+            1 => check_if_side_effects(1),
+            _ => check_if_side_effects(2),
+        }
+    }
+
+    fn same_value(v: &LuaValue, tag: usize) -> bool {
+        match (v, val(tag)) {
+            (LuaValue::True, 1) | (LuaValue::False, 2) | (LuaValue::Nil, 3) | (LuaValue::Table, 5) | (LuaValue::Function, 6) => true,
+            (LuaValue::Number(x), 4) => *x == 100.0 + tag as f64,
+            _ => false,
+        }
+    }
+    fn check_evaluate_if(branches: usize) {
+        setup();
+        let e = if_expression(branches);
+        let v = Evaluator::default().evaluate_if(&e);
+        if !matches!(v, LuaValue::Unknown) {
+            // every branch Lua MAY select (given what is known about the conditions) must have exactly this value
+            let t0 = truth(val(0));
+            let mut stop = false;
+            if t0 != Some(false) {
+                assert!(same_value(&v, 1), "O-val: a definite value of an if-expression is the value of the branch that runs (result)");
+            }
+            if t0 == Some(true) {
+                stop = true;
+            }
+            let mut i = 0;
+            while i < branches {
+                if !stop {
+                    let t = truth(val(3 + 2 * i));
+                    if t != Some(false) {
+                        assert!(same_value(&v, 4 + 2 * i), "O-val: a definite value of an if-expression is the value of the branch that runs (elseif result)");
+                    }
+                    if t == Some(true) {
+                        stop = true;
+                    }
+                }
+                i += 1;
+            }
+            if !stop {
+                assert!(same_value(&v, 2), "O-val: a definite value of an if-expression is the value of the branch that runs (else result)");
+            }
+        }
+        kani::cover!(!matches!(v, LuaValue::Unknown));
+        core::mem::forget(e);
+        core::mem::forget(v);
+    }
+
+    //@harness props=C08,C12 kind=bounded fns=Evaluator::evaluate_if bound="if-expressions with 0, 1 and 2 elseif branches; the callee evaluate is an ABSTRACT relation: any value per sub-expression" budget=400
+    //@ desc="a definite value folded for `if c then a elseif .. else b` is the value of every branch Lua may select given what is known about the conditions (an unknown condition leaves several candidates: they must then all have that value) -- for every behaviour of evaluate on the sub-expressions"
+    #[kani::proof]
+    #[kani::unwind(10)]
+    #[kani::stub(Evaluator::evaluate, abs_evaluate)]
+    fn vk_se_evaluate_if() {
+        let n: u8 = kani::any();
+        kani::assume(n <= 2);
+        match n {
+            0 => check_evaluate_if(0),
+            1 => check_evaluate_if(1),
+            _ => check_evaluate_if(2),
+        }
+    }
+
+    // MEASURED, out of reach: has_side_effects itself on `l <op> r` / `<op> x` with `evaluate` replaced by the abstract
+    // relation above and operands fixed to a literal or a call.  Even with a CONCRETE operator (`+`) and unwind 5
+    // CBMC does not finish in 150 s (with the operator symbolic and unwind 10: > 400 s): the function is
+    // self-recursive, so it cannot be stubbed for its own recursive calls, and CBMC unwinds the recursion through
+    // every arm of the Expression enum.  The binary / unary arms (metamethod rule, short-circuit rule) therefore stay
+    // uncovered; only maybe_metatable (their helper) and the if-expression arm are under contract.
+
+    //@harness props=C08 kind=mustfail fns=Evaluator::if_expression_has_side_effects
+    //@ desc="vacuity witness: the false claim `an if-expression never has side effects` must be refuted"
+    #[kani::proof]
+    #[kani::unwind(10)]
+    #[kani::stub(Evaluator::evaluate, abs_evaluate)]
+    #[kani::stub(Evaluator::has_side_effects, abs_has_side_effects)]
+    fn vk_se_mustfail_if_never() {
+        setup();
+        let e = if_expression(1);
+        assert!(!Evaluator::default().if_expression_has_side_effects(&e), "MUSTFAIL witness");
+        core::mem::forget(e);
+    }
+}
